@@ -664,10 +664,107 @@ var famKill = NewFamily("C19.kill", func(k killCase) (*Fail, bool) {
 	return nil, true
 })
 
+// I/O faults: the K-th write()/pwrite64() system call of each thread of a --rm run fails with ENOSPC
+// (strace fault injection). Whatever the tool then reports, each source must still exist intact or
+// its counterpart must exist and hold exactly what it stands for.
+type ioFaultCase struct {
+	Tree      string `json:"tree"`
+	Direction string `json:"direction"`
+	K         int    `json:"kth_write"`
+	Err       string `json:"errno"`
+}
+
+func (k ioFaultCase) String() string { return fmt.Sprintf("%s|%s|%d|%s", k.Tree, k.Direction, k.K, k.Err) }
+
+func countWrites(tree, direction string) int {
+	dir := scratch()
+	defer os.RemoveAll(dir)
+	root := filepath.Join(dir, "t")
+	makeTree(root, tree)
+	args := []string{"-c", "-i", root, "-v", "0", "-j", "1", "-l", "2", "--rm"}
+	if direction == "decompress" {
+		runCLI(nil, args...)
+		args = []string{"-d", "-i", root, "-v", "0", "-j", "1", "--rm"}
+	}
+	logf := filepath.Join(dir, "w.log")
+	cmd := exec.Command("strace", append([]string{"-f", "-o", logf, "-e", "trace=write,pwrite64", cliBin}, args...)...)
+	cmd.Env = append(os.Environ(), "GOMAXPROCS=1")
+	cmd.CombinedOutput()
+	b, _ := os.ReadFile(logf)
+	return strings.Count(string(b), "write(") + strings.Count(string(b), "pwrite64(")
+}
+
+var famIOFault = NewFamily("C19.iofault", func(k ioFaultCase) (*Fail, bool) {
+	dir := scratch()
+	defer os.RemoveAll(dir)
+	root := filepath.Join(dir, "t")
+	orig, _ := makeTree(root, k.Tree)
+	args := []string{"-c", "-i", root, "-v", "0", "-j", "1", "-l", "2", "--rm"}
+	var packed map[string][]byte
+	if k.Direction == "decompress" {
+		if code, msg, _ := runCLI(nil, args...); code != 0 {
+			return failf("harness-iofault-prepare", "healthy compression failed: %d %s", code, msg), false
+		}
+		packed = readTree(root)
+		args = []string{"-d", "-i", root, "-v", "0", "-j", "1", "--rm"}
+	}
+	inj := fmt.Sprintf("inject=write,pwrite64:error=%s:when=%d", k.Err, k.K)
+	cmd := exec.Command("strace", append([]string{"-f", "-o", "/dev/null", "-e", "trace=write,pwrite64", "-e", inj, cliBin}, args...)...)
+	cmd.Env = append(os.Environ(), "GOMAXPROCS=1")
+	done := make(chan struct{})
+	go func() { cmd.CombinedOutput(); close(done) }()
+	select {
+	case <-done:
+	case <-time.After(10 * time.Minute):
+		if cmd.Process != nil {
+			cmd.Process.Kill()
+		}
+		return failf("hang "+k.Direction+" with a failing write", "%s: the tool did not finish within 10 minutes", k), true
+	}
+	got := readTree(root)
+	decode := func(kz []byte) ([]byte, int) {
+		tmp, out := filepath.Join(dir, "p.knz"), filepath.Join(dir, "p.out")
+		os.WriteFile(tmp, kz, 0o644)
+		os.Remove(out)
+		code, _, _ := runCLI(nil, "-d", "-i", tmp, "-o", out, "-v", "0", "-f")
+		g, _ := os.ReadFile(out)
+		return g, code
+	}
+	for p, d := range orig {
+		if k.Direction == "compress" {
+			if g, ok := got[p]; ok {
+				if !bytes.Equal(g, d) {
+					return failf("source-modified write-failure compress", "%s: %s was modified", k, p), true
+				}
+				continue
+			}
+			kz, ok := got[p+".knz"]
+			if !ok {
+				return failf("source-gone-without-output write-failure compress", "%s: %s is gone and there is no %s.knz", k, p, p), true
+			}
+			if g, code := decode(kz); code != 0 || !bytes.Equal(g, d) {
+				return failf("source-gone-output-incomplete write-failure compress --rm", "%s: a write failed with %s, %s was removed and %s.knz does not decode to it (exit %d)", k, k.Err, p, p, code), true
+			}
+			continue
+		}
+		// decompress: the source is p.knz
+		if kz, ok := got[p+".knz"]; ok {
+			if !bytes.Equal(kz, packed[p+".knz"]) {
+				return failf("source-modified write-failure decompress", "%s: %s.knz was modified", k, p), true
+			}
+			continue
+		}
+		if g, ok := got[p]; !ok || !bytes.Equal(g, d) {
+			return failf("source-gone-output-incomplete write-failure decompress --rm", "%s: a write failed with %s, %s.knz was removed and %s holds %d of %d bytes", k, k.Err, p, p, len(g), len(d)), true
+		}
+	}
+	return nil, true
+})
+
 func init() {
 	register("C19", "model_checking", func(c *Ctx) {
 		c19ctx = c
-		c.Rule("real binary built from the current tree. (a) round trips: trees {flat, nested (empty file, empty dir, dot file, sub-directories), single, large} x levels 0..9 and explicit -t/-e/-b/-x option sets x modes {in place with --rm, in place + file-by-file decode, dir -> output dir, file -> file, stdin -> stdout} x jobs {1,4}: full product for the small trees, levels {1,5,8} for the large one. (b) safety: existing output without -f (both directions), output == input via identical path / path alias / symlink / hard link with and without -f, read-only input, failed compression or decompression with --rm keeps the source. (c) crash points: for each --rm run (compress and decompress, -j 1 and -j 4) the syscall history is recorded with strace and EVERY PREFIX is materialised as a model directory state (states = prefixes, transitions = file-system calls); the invariant 'each source exists intact or its output exists and decodes to it (real binary)' is evaluated at every prefix, no call opens an input for writing, and the fully replayed model must equal the real final tree; real SIGKILL injections at every unlinkat of a -j 1 run are checked against the same invariant")
+		c.Rule("real binary built from the current tree. (a) round trips: trees {flat, nested (empty file, empty dir, dot file, sub-directories), single, large} x levels 0..9 and explicit -t/-e/-b/-x option sets x modes {in place with --rm, in place + file-by-file decode, dir -> output dir, file -> file, stdin -> stdout} x jobs {1,4}: full product for the small trees, levels {1,5,8} for the large one. (b) safety: existing output without -f (both directions), output == input via identical path / path alias / symlink / hard link with and without -f, read-only input, failed compression or decompression with --rm keeps the source. (c) crash points: for each --rm run (compress and decompress, -j 1 and -j 4) the syscall history is recorded with strace and EVERY PREFIX is materialised as a model directory state (states = prefixes, transitions = file-system calls); the invariant 'each source exists intact or its output exists and decodes to it (real binary)' is evaluated at every prefix, no call opens an input for writing, and the fully replayed model must equal the real final tree; real SIGKILL injections at every unlinkat of a -j 1 run are checked against the same invariant. (d) I/O faults: the k-th write()/pwrite64() system call (per thread, strace fault injection, ENOSPC; EIO in thorough) of --rm runs in both directions fails, for every k of the fault-free run: afterwards every source exists intact or its counterpart holds exactly what it stands for")
 		c.Assume("process kill only (no power loss): bytes passed to write() are in the file; strace -f -y reports every file-system call of the process")
 		if err := buildCLI(); err != nil {
 			c.HarnessError(err.Error())
@@ -748,6 +845,21 @@ func init() {
 			}
 			for n := 1; n <= len(treeSpec("flat")); n++ {
 				emit(killCase{Tree: "flat", N: n})
+			}
+		})
+		// every write()/pwrite64() of a --rm run fails once (per thread) with ENOSPC / EIO
+		famIOFault.Each(c, 8, func(emit func(ioFaultCase)) {
+			for _, tree := range pick(c, []string{"flat", "large"}, []string{"flat", "nested", "large"}) {
+				for _, d := range []string{"compress", "decompress"} {
+					n := countWrites(tree, d)
+					c.Extra(fmt.Sprintf("write_syscalls_%s_%s", tree, d), n)
+					for k := 1; k <= n+1; k++ {
+						emit(ioFaultCase{Tree: tree, Direction: d, K: k, Err: "ENOSPC"})
+						if c.Thorough() {
+							emit(ioFaultCase{Tree: tree, Direction: d, K: k, Err: "EIO"})
+						}
+					}
+				}
 			}
 		})
 		var mu sync.Mutex
